@@ -150,6 +150,7 @@ func (c *LRUCache) Get(key string) (interface{}, bool) {
 	elem, ok := c.items[key]
 	if !ok {
 		atomic.AddUint64(&c.stats.Misses, 1)
+		verifEvent("Get", c, key, nil, false)
 		return nil, false
 	}
 
@@ -157,6 +158,7 @@ func (c *LRUCache) Get(key string) (interface{}, bool) {
 	if entry.IsExpired() {
 		c.removeElement(elem)
 		atomic.AddUint64(&c.stats.Misses, 1)
+		verifEvent("Get", c, key, nil, false)
 		return nil, false
 	}
 
@@ -166,6 +168,7 @@ func (c *LRUCache) Get(key string) (interface{}, bool) {
 	entry.AccessCount++
 
 	atomic.AddUint64(&c.stats.Hits, 1)
+	verifEvent("Get", c, key, entry.Value, true)
 	return entry.Value, true
 }
 
@@ -203,6 +206,7 @@ func (c *LRUCache) Set(key string, value interface{}, ttl time.Duration) error {
 		c.currentSize += size
 		elem.Value = entry
 		atomic.AddUint64(&c.stats.Sets, 1)
+		verifEvent("Set", c, key, value, ttl, false)
 		return nil
 	}
 
@@ -218,6 +222,7 @@ func (c *LRUCache) Set(key string, value interface{}, ttl time.Duration) error {
 	atomic.AddUint64(&c.stats.Sets, 1)
 	atomic.AddInt64(&c.stats.EntryCount, 1)
 
+	verifEvent("Set", c, key, value, ttl, false)
 	return nil
 }
 
@@ -253,6 +258,7 @@ func (c *LRUCache) SetWithTags(key string, value interface{}, ttl time.Duration,
 		c.currentSize -= oldEntry.Size
 		c.currentSize += size
 		elem.Value = entry
+		verifEvent("SetTags", c, key, value, ttl, tags, false)
 		return nil
 	}
 
@@ -265,6 +271,7 @@ func (c *LRUCache) SetWithTags(key string, value interface{}, ttl time.Duration,
 	c.currentSize += size
 	atomic.AddInt64(&c.stats.EntryCount, 1)
 
+	verifEvent("SetTags", c, key, value, ttl, tags, false)
 	return nil
 }
 
@@ -278,6 +285,7 @@ func (c *LRUCache) Delete(key string) error {
 		atomic.AddUint64(&c.stats.Deletes, 1)
 	}
 
+	verifEvent("Delete", c, key)
 	return nil
 }
 
@@ -302,6 +310,7 @@ func (c *LRUCache) DeleteByTag(tag string) int {
 		c.removeElement(elem)
 	}
 
+	verifEvent("DelTag", c, tag, len(toRemove))
 	return len(toRemove)
 }
 
@@ -322,6 +331,7 @@ func (c *LRUCache) Clear() error {
 	c.currentSize = 0
 	atomic.StoreInt64(&c.stats.EntryCount, 0)
 
+	verifEvent("Clear", c)
 	return nil
 }
 
@@ -348,6 +358,7 @@ func (c *LRUCache) evictOldest() {
 	if elem != nil {
 		c.removeElement(elem)
 		atomic.AddUint64(&c.stats.Evictions, 1)
+		verifEvent("Evict", c, elem.Value.(*Entry).Key)
 	}
 }
 
@@ -385,6 +396,7 @@ func (c *LRUCache) cleanup() {
 			for _, elem := range expired {
 				c.removeElement(elem)
 			}
+			verifEvent("Cleanup", c, len(expired))
 			c.mu.Unlock()
 		}
 	}
@@ -651,6 +663,7 @@ func (hc *HTTPCache) InvalidateByPrefix(prefix string) int {
 		}
 	}
 
+	verifEvent("InvPrefix", hc.cache, prefix, count)
 	return count
 }
 
